@@ -18,7 +18,7 @@ def choice_via(c):
     return [QHyp([ch, n, S], Implies(And(S[ch], tag(c.old, ch) != tag(c.old, c['self']), reach(ch, n)), via(c, S, n)), 'choice.via', triggers=[(reach, (0, 1))])]
 
 
-@contract(W, 'dawgie/pl/dag.py', 'Node.locate', props=['C02', 'C04', 'C15', 'C20'])
+@contract(W, 'dawgie/pl/dag.py', 'Node.locate', props=['C02', 'C04', 'C15', 'C20', 'C01'])
 class locate(ContractBase):
     """every node below (or at) this one that carries the name, and nothing else"""
     params = {'self': NODE, 'name': ATOM}
@@ -81,7 +81,7 @@ def asp(c, n):
     return c.old.f('Factory.__name__', c.old.f('Node.factory', n)) == atom('analysis')
 
 
-@contract(W, 'dawgie/pl/schedule.py', 'organize', props=['C02', 'C04', 'C12'])
+@contract(W, 'dawgie/pl/schedule.py', 'organize', props=['C02', 'C04', 'C12', 'C01'])
 class organize(ContractBase):
     params = {'task_names': Bag(ATOM), 'runid': Opt(INT), 'targets': TGTS, 'event': Opt(ATOM)}
     defaults = {'runid': None, 'targets': None, 'event': None}
